@@ -380,6 +380,13 @@ pub fn spec() -> PropSpec {
         min_counts: &[("states", 1000), ("refused_double_punctures", 100), ("export_import_checks", 1000), ("merges", 100), ("traces_validated", 4)],
       },
       Check {
+        name: "stateright-crosscheck",
+        rule: "second engine: stateright 0.31 BFS (single thread, target_max_depth) over the same real step function and invariant; verdict and unique-state count must equal the harness BFS at the same depth (engine disagreement = machinery error)",
+        gen: |tier| vec![json!({"depth": if tier.thorough() { 4 } else { 3 }})],
+        run: super::sr::run_c14,
+        min_counts: &[("engine_agreements", 1)],
+      },
+      Check {
         name: "fixed-histories",
         rule: "5 longer hand-written histories (follower re-syncing repeatedly, re-import of an older state, puncturing every tag incl. unregistered and extreme ones, two punctures in one half of the tree): full invariant on every instance after every step",
         gen: |_| fixed_histories().into_iter().map(|h| json!({"history": serde_json::to_value(h).unwrap()})).collect(),
